@@ -137,7 +137,59 @@ class Body:
             return o
         if rv["k"] in ("ref", "rawptr") and through_refs and not rv["place"]["p"]:
             return self.origin_local(rv["place"]["l"], through_casts, through_refs, depth + 1)
+        if rv["k"] in ("ref", "rawptr") and rv["place"]["p"] == ["deref"]:
+            # reborrow `&mut *x` / `&raw mut *x`: same pointer
+            return self.origin_local(rv["place"]["l"], through_casts, through_refs, depth + 1)
         return {"kind": "rvalue", "rv": rv, "bb": d[1], "idx": d[2], "local": l}
+
+    # ---------------------------------------------------------------- constant folding
+    def const_value(self, op, depth=0):
+        """Integer value of an operand if it is a compile-time constant expression over literals/consts."""
+        if depth > 20:
+            return None
+        c = operand_const(op)
+        if c is not None:
+            return c.get("int")
+        pl = operand_place(op)
+        if pl is None:
+            return None
+        if pl["p"]:
+            # field 0 of a checked-arithmetic tuple
+            if len(pl["p"]) == 1 and isinstance(pl["p"][0], dict) and pl["p"][0].get("f") == 0 and pl["p"][0].get("adt") == "(tuple)":
+                d = self.single_def(pl["l"])
+                if d and d[0] == "assign" and d[3]["k"] == "binop" and d[3]["op"].endswith("WithOverflow"):
+                    return self._fold(d[3]["op"][: -len("WithOverflow")], d[3]["a"], d[3]["b"], depth)
+            return None
+        d = self.single_def(pl["l"])
+        if d is None or d[0] != "assign":
+            return None
+        rv = d[3]
+        if rv["k"] == "use":
+            return self.const_value(rv["op"], depth + 1)
+        if rv["k"] == "cast" and rv["cast"].startswith("IntToInt"):
+            return self.const_value(rv["op"], depth + 1)
+        if rv["k"] == "binop":
+            return self._fold(rv["op"].replace("Unchecked", ""), rv["a"], rv["b"], depth)
+        if rv["k"] == "unop" and rv["op"] == "Not":
+            v = self.const_value(rv["a"], depth + 1)
+            if v is None:
+                return None
+            bits = self.b.get("_pointer_bits", 64)
+            return (~v) & ((1 << bits) - 1)
+        return None
+
+    def _fold(self, op, a, b, depth):
+        x = self.const_value(a, depth + 1)
+        y = self.const_value(b, depth + 1)
+        if x is None or y is None:
+            return None
+        try:
+            return {
+                "Add": lambda: x + y, "Sub": lambda: x - y, "Mul": lambda: x * y, "Shl": lambda: x << y, "Shr": lambda: x >> y,
+                "BitAnd": lambda: x & y, "BitOr": lambda: x | y, "BitXor": lambda: x ^ y, "Div": lambda: x // y, "Rem": lambda: x % y,
+            }[op]()
+        except (KeyError, ZeroDivisionError, ValueError):
+            return None
 
     # ---------------------------------------------------------------- conditions
     def condition(self, op, depth=0):
